@@ -13,7 +13,20 @@ import (
 
 // C14: quote encoding and decoding are inverse and total for all Unicode text.
 
+// one state object per kind for the whole run: the states must not remember anything between
+// calls (a tokenizer shares one quote state between all its quote characters)
+var sharedQuoteStates = map[string]tokenizers.IQuoteState{}
+
 func quoteState(st string) tokenizers.IQuoteState {
+	if q, ok := sharedQuoteStates[st]; ok {
+		return q
+	}
+	q := newQuoteState(st)
+	sharedQuoteStates[st] = q
+	return q
+}
+
+func newQuoteState(st string) tokenizers.IQuoteState {
 	switch st {
 	case "g":
 		return generic.NewGenericQuoteState()
@@ -105,6 +118,15 @@ func propC14(c *Ctx) {
 		}
 	}
 	c.Notes = append(c.Notes, fmt.Sprintf("exhaustive: all strings of length <= %d over {quote, other quote, ASCII, 2-/3-/4-byte rune, space, newline} x 4 quote characters x 3 quote states, for encode+decode+stream read-back, raw decode (lone quotes, unterminated literals) and state tokenization", maxL))
+	// alternate the quote character from call to call on the shared state objects
+	for _, st := range states {
+		for _, t := range [][]rune{[]rune("it's"), []rune("a\"b"), []rune("''a'"), []rune("x"), {}, []rune("\"\""), []rune("'\"'")} {
+			for _, q := range []rune{'\'', '"', '\'', 0xab, '"'} {
+				runQuoteCase(c, st, q, "enc", t)
+				runQuoteCase(c, st, q, "dec", append(append([]rune{q}, t...), q))
+			}
+		}
+	}
 	n := 3000
 	if c.Thorough {
 		n = 60000
